@@ -117,7 +117,13 @@ class FakePort:
             self.log.append(("x", name))
             raise EXCEPTIONS[name]()
 
+    reset_raises = None                        # exception name: flushing the input buffer fails (port half-open)
+
     def reset_input_buffer(self):
+        if self.reset_raises:
+            name, self.reset_raises = self.reset_raises, None
+            self.log.append(("x", name))
+            raise EXCEPTIONS[name]()
         self.rx.clear()
 
     def flushInput(self):  # noqa: N802  (pyserial 2 name used by ebb_serial.testPort)
